@@ -247,6 +247,9 @@ func runW2(c *core.Ctx) {
 	for _, rel := range []string{"internal/decoder/api", "internal/decoder/jitdec", "internal/decoder/optdec"} {
 		pk := p.Pkg(rel)
 		if pk == nil {
+			if p.GOARCH != "amd64" && strings.HasSuffix(rel, "jitdec") {
+				continue // the JIT decoder is not part of this build configuration
+			}
 			c.Undecided(rel, token.NoPos, "package not loaded")
 			continue
 		}
